@@ -155,7 +155,7 @@ def stepLine (d : DState) (line : String) : DState × String :=
         if d.pendingRules == 1 then
           -- a new program comes with an engine restart
           let st := match step (program acc) d.st .restart with | some s => s | none => d.st
-          ({ d with rules := acc, acc := [], pendingRules := 0, st := st }, "ok")
+          ({ d with rules := acc, acc := [], pendingRules := 0, st := st }, if wf acc then "ok wf" else "ok notwf")
         else ({ d with acc := acc, pendingRules := d.pendingRules - 1 }, "")
       | none => (d, "bad-rule")
     | _ => (d, "bad-rule")
@@ -185,7 +185,7 @@ def stepLine (d : DState) (line : String) : DState × String :=
     let (s', err) := runEvents P d.st (mergeFinished evs.length evs) 0
     match err with
     | some e => ({ d with st := { s' with target := none } }, e)
-    | none => ({ d with st := s' }, s!"ok {evs.length}")
+    | none => ({ d with st := s' }, s!"ok {evs.length}" ++ (if s'.pendingDropped then " dropped" else ""))
   | ["CLEAN", k] =>
     match k.toNat? with
     | some k => (d, match cleanVal P d.st.env 40 k with | some v => s!"{v}" | none => "none")
